@@ -29,6 +29,10 @@ type vfHold struct {
 	Sticky     bool  // a terms change may have shortened the deadline
 	Chain      []uint64
 	AckPending bool
+	FromQueue  bool
+	PendRelock bool   // the pending acknowledgement belongs to a re-entrant re-lock of an established hold
+	PrevReq    uint64 // request that held the terms before the pending re-lock
+	PendTick   int64
 	Grants     int // number of SUCCED lock replies (1 + re-locks)
 	WasUpdated bool
 	Req        uint64
@@ -183,12 +187,24 @@ type vfShadow struct {
 	// reply means that the request's value operation was executed
 	evApplied bool
 	onValue   func(kid vfKeyId, k *vfKeyState, r *vfReq, ev *vfEvent, applied bool)
+	onAckAdmit    func(kid vfKeyId, r *vfReq)
+	onAckRollback func(kid vfKeyId, r *vfReq)
+	onAckGrant    func(kid vfKeyId, k *vfKeyState, r *vfReq, ev *vfEvent) // SUCCED of a require-ack grant (C11 log check)
+	ackMark bool // set by handlers: this event is the completion of an ack-pending hold
+	faultSig string // non-empty once a fault was injected into this script: signature given to later findings
 }
 
 func vfNewShadow(e *vfEngine) *vfShadow {
 	s := &vfShadow{e: e, keys: map[vfKeyId]*vfKeyState{}, stats: map[string]int64{}, terminal: map[uint64]int{}, notices: map[uint64]int{}, chainOf: map[uint64]bool{}, touched: map[vfKeyId]bool{}, checkLCount: true}
 	e.onEvent = s.onEvent
 	e.onQueued = s.onQueued
+	e.onHook = func(point int) {
+		if e.ackMode && point == VP_WAKE_LOOP {
+			for kid, k := range s.keys {
+				s.syncAckAdmissions(kid, k)
+			}
+		}
+	}
 	return s
 }
 
@@ -202,6 +218,9 @@ func (s *vfShadow) key(id vfKeyId) *vfKeyState {
 }
 
 func (s *vfShadow) report(prop, clause, sig, format string, args ...interface{}) {
+	if sig == "" && s.faultSig != "" {
+		sig = s.faultSig
+	}
 	s.findings = append(s.findings, vfFinding{Prop: prop, Clause: clause, Sig: sig, Detail: fmt.Sprintf(format, args...)})
 }
 
@@ -231,6 +250,23 @@ func (s *vfShadow) onQueued(r *vfReq) {
 	k := s.key(kid)
 	s.touched[kid] = true
 	if op.TFlag&protocol.TIMEOUT_FLAG_REQUIRE_ACKED != 0 {
+		if h := k.hold(op.LockId); h != nil && !h.AckPending && op.Flag&protocol.LOCK_FLAG_UPDATE_WHEN_LOCKED == 0 && op.Flag&protocol.LOCK_FLAG_SHOW_WHEN_LOCKED == 0 {
+			// re-entrant re-lock awaiting acknowledgement: the depth is already
+			// raised, the reply follows the acknowledgement
+			prio, _ := vfPrioOf(op)
+			if prio || h.Depth > int(op.Rcount) || h.Depth >= 0xff || op.Expried == 0 {
+				s.report("C02", "reentry-pending-not-allowed", "", "require-ack request %d on held L%d was left pending although a re-lock is not allowed (depth %d, Rcount %d)", r.ID, op.LockId, h.Depth, op.Rcount)
+			}
+			h.Depth++
+			h.AckPending, h.PendRelock, h.PrevReq, h.Req, h.PendTick = true, true, h.Req, r.ID, s.e.in.now
+			s.stats["ack_pending_relocks"]++
+			s.evApplied = true
+			if s.onAckAdmit != nil {
+				s.onAckAdmit(kid, r)
+			}
+			s.noteCause(k, "terms-change")
+			return
+		}
 		// classify through the census: ack-pending hold or queued
 		if s.isAckPendingInServer(op, r) {
 			prio, _ := vfPrioOf(op)
@@ -239,6 +275,9 @@ func (s *vfShadow) onQueued(r *vfReq) {
 			k.Holds = append(k.Holds, h)
 			s.stats["ack_pending_grants"]++
 			s.noteCause(k, "grant")
+			if s.onAckAdmit != nil {
+				s.onAckAdmit(kid, r)
+			}
 			return
 		}
 	}
@@ -257,6 +296,68 @@ func (s *vfShadow) onQueued(r *vfReq) {
 	}
 	s.noteCause(k, "queued")
 	s.evalAdmissible(k, len(s.e.events))
+}
+
+// syncAckAdmissions: a queued require-ack request that a wake-up pass admits
+// becomes a hold awaiting acknowledgement WITHOUT any reply; the shadow learns
+// it from the census (observation of the server's own state, under its lock).
+func (s *vfShadow) syncAckAdmissions(kid vfKeyId, k *vfKeyState) {
+	n := 0
+	for _, w := range k.Waiters {
+		if w.TFlag&protocol.TIMEOUT_FLAG_REQUIRE_ACKED != 0 && !w.Cancelled {
+			n++
+		}
+	}
+	if n == 0 {
+		return
+	}
+	db := s.e.in.dbs[kid.Db]
+	c := vfTakeCensus(db)
+	ck := c.find(kid.Db, vfKeyBytes(kid.Db, kid.Key))
+	if ck == nil {
+		return
+	}
+	for _, w := range append([]*vfWaiter(nil), k.Waiters...) {
+		if w.TFlag&protocol.TIMEOUT_FLAG_REQUIRE_ACKED == 0 || w.Cancelled {
+			continue
+		}
+		rid := vfReqIdBytes(w.Req, w.Client)
+		for _, h := range ck.Holds {
+			if h.ReqId == rid && h.AckWait {
+				r := s.e.reqs[w.Req]
+				prio, _ := vfPrioOf(&r.Op)
+				nh := &vfHold{LockId: w.LockId, Depth: 1, Count: w.Count, Rcount: w.Rcount, Prio: prio, GrantTick: s.e.in.now, AckPending: true, Chain: []uint64{w.Req}, Req: w.Req, FromQueue: true}
+				s.setDeadline(nh, &r.Op, true)
+				// order rule for the admission itself
+				if !k.hasWWU() {
+					for _, o := range k.Waiters {
+						if o == w || o.Cancelled {
+							continue
+						}
+						if o.Prio > w.Prio || (o.Prio == w.Prio && o.ArriveSeq < w.ArriveSeq) {
+							s.report("C04", "overtake", "", "queued require-ack request %d was admitted before request %d", w.Req, o.Req)
+							break
+						}
+					}
+				}
+				var oldest uint16
+				if len(k.Holds) > 0 {
+					oldest = k.Holds[0].Count
+				}
+				if !vfAdmissible(k.depth(), oldest, w.Count) {
+					s.report("C01", "admission", "", "queued require-ack request %d (Count=%d) admitted while %d holds outstanding (oldest Count=%d)", w.Req, w.Count, k.depth(), oldest)
+				}
+				k.removeWaiter(w)
+				k.Holds = append(k.Holds, nh)
+				s.stats["ack_pending_from_queue"]++
+				s.noteCause(k, "grant")
+				if s.onAckAdmit != nil {
+					s.onAckAdmit(kid, r)
+				}
+				break
+			}
+		}
+	}
 }
 
 func (s *vfShadow) isAckPendingInServer(op *vfOp, r *vfReq) bool {
@@ -335,7 +436,11 @@ func (s *vfShadow) onEvent(ev *vfEvent) {
 	kid := vfKeyId{op.Db, op.Key}
 	k := s.key(kid)
 	s.touched[kid] = true
+	if s.e.ackMode {
+		s.syncAckAdmissions(kid, k)
+	}
 	s.evApplied = false
+	s.ackMark = false
 	if ev.Result == protocol.RESULT_EXPRIED {
 		s.notices[r.ID]++
 		s.handleExpried(k, r, ev)
@@ -483,6 +588,25 @@ func (s *vfShadow) handleLockReply(k *vfKeyState, r *vfReq, ev *vfEvent) {
 	switch ev.Result {
 	case protocol.RESULT_SUCCED:
 		if h := k.hold(ev.LockId); h != nil && w == nil {
+			if h.AckPending && h.Req == r.ID && h.PendRelock {
+				h.AckPending, h.PendRelock = false, false
+				prio, _ := vfPrioOf(op)
+				h.Count, h.Rcount, h.Prio = op.Count, op.Rcount, prio
+				saved := s.e.in.now
+				s.e.in.now = h.PendTick
+				s.setDeadline(h, op, true)
+				s.e.in.now = saved
+				h.Grants++
+				h.Chain = []uint64{r.ID}
+				s.chainOf[r.ID] = true
+				s.stats["ack_relocks_completed"]++
+				s.stats["ack_completed"]++
+				s.ackMark = true
+				if s.onAckGrant != nil {
+					s.onAckGrant(vfKeyId{op.Db, op.Key}, k, r, ev)
+				}
+				return
+			}
 			if h.AckPending && h.Req == r.ID {
 				// acknowledgement completed
 				h.AckPending = false
@@ -490,6 +614,10 @@ func (s *vfShadow) handleLockReply(k *vfKeyState, r *vfReq, ev *vfEvent) {
 				s.chainOf[r.ID] = true
 				s.setDeadlineAt(h, op, h.GrantTick)
 				s.stats["ack_completed"]++
+				s.ackMark = true
+				if s.onAckGrant != nil {
+					s.onAckGrant(vfKeyId{op.Db, op.Key}, k, r, ev)
+				}
 				return
 			}
 			if h.AckPending {
@@ -606,7 +734,11 @@ func (s *vfShadow) handleLockReply(k *vfKeyState, r *vfReq, ev *vfEvent) {
 		if h := k.hold(ev.LockId); h != nil && h.AckPending && h.Req == r.ID {
 			k.removeHold(h)
 			s.stats["ack_timeouts"]++
+			k.endKind = "rollback"
 			s.noteCause(k, "hold-end")
+			if s.onAckRollback != nil {
+				s.onAckRollback(vfKeyId{op.Db, op.Key}, r)
+			}
 			return
 		}
 		if op.Timeout > 0 && !(op.Flag&protocol.LOCK_FLAG_CONCURRENT_CHECK != 0) {
@@ -624,9 +756,35 @@ func (s *vfShadow) handleLockReply(k *vfKeyState, r *vfReq, ev *vfEvent) {
 			k.removeWaiter(w)
 		}
 	case protocol.RESULT_ERROR:
+		if h := k.hold(ev.LockId); h != nil && h.AckPending && h.Req == r.ID && h.PendRelock {
+			h.AckPending, h.PendRelock = false, false
+			h.Depth--
+			h.Req = h.PrevReq
+			s.stats["ack_relocks_failed"]++
+			s.stats["ack_failed"]++
+			k.endKind = "rollback"
+			s.noteCause(k, "hold-end")
+			if s.onAckRollback != nil {
+				s.onAckRollback(vfKeyId{op.Db, op.Key}, r)
+			}
+			return
+		}
 		if h := k.hold(ev.LockId); h != nil && h.AckPending && h.Req == r.ID {
 			k.removeHold(h)
 			s.stats["ack_failed"]++
+			k.endKind = "rollback"
+			s.noteCause(k, "hold-end")
+			if s.onAckRollback != nil {
+				s.onAckRollback(vfKeyId{op.Db, op.Key}, r)
+			}
+			return
+		}
+		if w != nil && w.TFlag&protocol.TIMEOUT_FLAG_REQUIRE_ACKED != 0 {
+			// admitted from the queue (awaiting acknowledgement) and rolled back
+			k.removeWaiter(w)
+			s.stats["ack_failed"]++
+			s.stats["ack_failed_from_queue"]++
+			k.endKind = "rollback"
 			s.noteCause(k, "hold-end")
 			return
 		}
@@ -802,7 +960,13 @@ func (s *vfShadow) handleUnlockReply(k *vfKeyState, r *vfReq, ev *vfEvent) {
 			if h := k.hold(op.LockId); h != nil && h.AckPending {
 				k.removeHold(h)
 				s.stats["cancel_ack_pending"]++
+				k.endKind = "rollback"
 				s.noteCause(k, "hold-end")
+				if s.onAckRollback != nil {
+					if rr := s.e.reqs[h.Req]; rr != nil {
+						s.onAckRollback(vfKeyId{op.Db, op.Key}, rr)
+					}
+				}
 				return
 			}
 			s.report("C02", "cancel-nothing", "", "cancel-wait %d answered LOCKED_ERROR but no request with L%d is queued", r.ID, op.LockId)
@@ -812,7 +976,10 @@ func (s *vfShadow) handleUnlockReply(k *vfKeyState, r *vfReq, ev *vfEvent) {
 		s.stats["cancels"]++
 		s.noteCause(k, "waiter-left")
 	case protocol.RESULT_LOCK_ACK_WAITING:
-		if h := k.hold(op.LockId); h == nil || !h.AckPending {
+		if first && k.hold(op.LockId) == nil && len(k.Holds) > 0 && k.Holds[0].AckPending {
+			// unlock-first falling back to the oldest hold, which awaits acknowledgement
+			s.stats["unlock_first_ack_waiting"]++
+		} else if h := k.hold(op.LockId); h == nil || !h.AckPending {
 			s.report("C11", "ack-waiting-without-pending", "", "unlock %d answered LOCK_ACK_WAITING but L%d is not awaiting acknowledgement", r.ID, op.LockId)
 		}
 	default:
@@ -866,6 +1033,9 @@ func (s *vfShadow) quiescent() {
 			}
 			s.report("C04", "quiescent-admissible-head", sig, "db%d/k%d: at a quiescent moment the head queued request %d (Count=%d prio=%d) is admissible (holds depth=%d, oldest Count=%d); cause=%s", kid.Db, kid.Key, w.Req, w.Count, w.Prio, k.depth(), oldest, cause)
 			s.stats["c04_adm_"+cause]++
+			if cause == "hold-end" && k.admEndKind == "rollback" {
+				s.report("C11", "waiters-not-served-after-rollback", "", "db%d/k%d: a require-ack hold was rolled back but the head queued request %d (Count=%d) which is now admissible was not granted", kid.Db, kid.Key, w.Req, w.Count)
+			}
 			if cause == "hold-end" && k.admEndKind == "expiry" {
 				s.report("C06", "waiters-not-served-after-expiry", "", "db%d/k%d: a hold was ended by time but the head queued request %d (Count=%d) which is now admissible was not granted", kid.Db, kid.Key, w.Req, w.Count)
 			}
@@ -898,7 +1068,11 @@ func (s *vfShadow) compareCensus(prop string) {
 	for d, db := range s.e.in.dbs {
 		c := vfTakeCensus(db)
 		for _, e := range c.Errors {
-			s.report("C17", "structure", "", "db%d: %s", d, e)
+			last := ""
+			if n := len(s.e.opLog); n > 0 {
+				last = s.e.opLog[n-1].String()
+			}
+			s.report("C17", "structure", "", "db%d: %s (after op #%d: %s)", d, e, len(s.e.opLog), last)
 		}
 		var locked, waiting int
 		seen := map[int]bool{}
